@@ -796,6 +796,8 @@ pub fn enum_lex(shard: usize, nshards: usize, f: &mut dyn FnMut(&[u8])) {
         for t in lx::UTYPES {
             emit(&["en-u-", k, "-", t], &mut idx);
             emit(&["en-US-", t, "-u-", k, "-", t], &mut idx);
+            // the keyword written last although its key sorts first (serialisation moves it to the front)
+            emit(&["en-u-zz-abc-", k, "-", t], &mut idx);
         }
     }
     for k in lx::TKEYS {
@@ -814,6 +816,7 @@ pub fn enum_lex(shard: usize, nshards: usize, f: &mut dyn FnMut(&[u8])) {
                     emit(&["en-u-", k, "-", &part], &mut idx);
                     emit(&["ar-SA-u-", k, "-", &part, "-nu-arab"], &mut idx);
                     emit(&["en-u-attr-", k, "-", &part, "-t-en"], &mut idx);
+                    emit(&["en-u-zz-abc-", k, "-", &part], &mut idx);
                 }
             }
         }
